@@ -320,6 +320,39 @@ def r16_5(run):
     run.ob('R16.5', cr, cr.node, 'lookup by identity is stored unconditionally', ok, slot='id-always', message='identity key not stored on every path')
 
 
+def r16_8(run):
+    """the per-line handlers of the document parser take every token after the one-letter keyword (s: all flags, a: all
+    addresses, w: all key=value items); the blanked duplicate nicknames are removed from the nickname index at the end"""
+    pc = run.idx.cls('MicrodescriptorParser', '_microdesc_parser')
+    k = 0
+    for name in ('_router_flags', '_router_address', '_router_bandwidth'):
+        u = run.idx.find_method(pc, name)
+        if u is None:
+            raise AnchorVanished('MicrodescriptorParser.' + name)
+        p = u.params[1]
+        for n in walk_unit(u):
+            if isinstance(n, ast.Subscript) and isinstance(n.value, ast.Call) and callee_attr(n.value) == 'split' and dotted(receiver(n.value)) == p and isinstance(n.slice, ast.Slice):
+                k += 1
+                ok = const(n.slice.lower) == 1 and n.slice.upper is None and not n.value.args
+                run.ob('R16.8', u, n, '%s takes every token after the keyword' % name, ok, slot='tokens:%s' % name,
+                       message='%s takes %s: the first (or last) item of the line is lost - e.g. the Authority flag, which sorts first' % (name, src(n)))
+    run.floor('R16.8', 'token slices in the line handlers', k, 3)
+    un = TU(run, '_update_network_status')
+    g = cfg_of(un)
+    dels = [n for n in g.real_nodes() if n.kind == 'stmt' and isinstance(n.ast, ast.Delete) and any(isinstance(t, ast.Subscript) and dotted(t.value) == 'self.routers' for t in n.ast.targets)]
+    run.ob('R16.8', un, un.node, 'blanked (ambiguous) nicknames are removed from the nickname index', bool(dels), slot='dup-removed',
+           message='_update_network_status no longer deletes the None placeholders: an ambiguous nickname resolves to None instead of being unknown')
+    for dn in dels:
+        lp = [x for x in walk_unit(un) if isinstance(x, ast.For) and any(y is dn.ast for y in ast.walk(x))]
+        if lp and isinstance(lp[0].iter, ast.Name):
+            coll = lp[0].iter.id
+            adds = [n for n in g.real_nodes() if any(isinstance(a, ast.Call) and dotted(a.func) == coll + '.add' for a in node_asts(n))]
+            okg = bool(adds) and all(any(lab == 'T' for t, lab in g.guarded_by(a, lambda t: isinstance(t, ast.Compare) and is_none(t.comparators[0]) and isinstance(t.ops[0], ast.Is)))
+                                     for a in adds)
+            run.ob('R16.8', un, dn.ast, 'exactly the names whose entry is the None placeholder are removed', okg, slot='dup-removed-exact',
+                   message='the set of names to remove is not filled under "value is None"')
+
+
 def r16_6(run):
     k = dropped_deferreds(run, 'R16.6', [TU(run, '_bootstrap')], 'the state bootstrap')
     run.floor('R16.6', 'suspension points in TorState._bootstrap', k, 4)
@@ -330,6 +363,7 @@ RULES = [
     ('R16.1', 'writer/resetter set agreement: every index _create_router fills is rebound/cleared before the document is fed; parser flushed', r16_1),
     ('R16.2', 'reuse hygiene: every Router attribute written conditionally or cumulatively is reset unconditionally (objects are re-used across documents)', r16_2),
     ('R16.3', 'FSM table x line classes against dir-spec 3.4.1 order r a* s [w] [p] (first-match, matcher ASTs interpreted on class representatives)', r16_3),
+    ('R16.8', 'line handlers take data.split()[1:]; ambiguous nicknames deleted after the document', r16_8),
     ('R16.4', 'identity codec pair composed of mutually inverse primitives', r16_4),
     ('R16.5', 'guards/authorities keyed on the lower-cased flags; nickname index blanks duplicates; identity always indexed', r16_5),
 ]
@@ -337,6 +371,8 @@ RULES = [
 from ..selftest import M  # noqa: E402
 FT, FP, FR = 'txtorcon/torstate.py', 'txtorcon/_microdesc_parser.py', 'txtorcon/router.py'
 MUTANTS = [
+    M('first-flag-lost', FP, "    def _router_flags(self, data):\n        args = data.split()[1:]", "    def _router_flags(self, data):\n        args = data.split()[2:]", ['R16.8']),
+    M('dup-names-kept', FT, "        for k in remove_keys:\n            del self.routers[k]\n", "", ['R16.8']),
     M('ok-only-document-skipped', FT, "        if len(data):\n            self._old_routers = self.routers", "        if len(data) and data.strip() != 'OK':\n            self._old_routers = self.routers", ['R16.1']),
     M('update-only-for-new', FT, "            router = Router(self.protocol)\n\n        self.routers[id_hex] = router\n        router.from_consensus = True\n        router.update(", "            router = Router(self.protocol)\n\n        self.routers[id_hex] = router\n        router.from_consensus = True\n        if router.id_hex is None:\n          router.update(", ['R16.2']),
     M('guards-not-reset', FT, "            self.guards = dict()\n            self.authorities = dict()\n", "            self.authorities = dict()\n", ['R16.1']),
